@@ -6,7 +6,7 @@
    transition on every byte, same accepting / terminal flags, same tag sets. *)
 From Coq Require Import List NArith Bool Arith.
 From SNT Require Import Base.Outcome Base.Report Automata.Regex Automata.NFA Automata.Compile
-  Automata.DfaData Automata.ProdNfaData.
+  Automata.CompileFast Automata.DfaData Automata.ProdNfaData.
 Import ListNotations.
 
 Definition opt_n_eqb (a : option nat) (b : option N) : bool :=
@@ -48,7 +48,8 @@ Fixpoint infos_agree (a : list dinfo) (b : list info) : bool :=
 
 (* 0 = agreement; other values say what differs *)
 Definition prod_agree (fuel cf : nat) (nd : nfa_data) (dd : dfa_data) : N :=
-  match Compile.compile fuel cf (to_nfa nd) with
+  (* compile_fast = compile (CompileFastProofs.compile_fast_eq): same result, binary state ids *)
+  match compile_fast fuel cf (to_nfa nd) with
   | Ok d =>
       if negb (N.eqb (N.of_nat (dstart d)) (dd_start dd)) then 1%N
       else if negb (Nat.eqb (length (dinfos d)) (length (dd_rows dd))) then 2%N
